@@ -30,13 +30,13 @@ Definition harness_mutable : list (N * nat) := [(1, 1%nat); (3, 3%nat)].
 
 Record case := mkcase {
   k_ty : idtype; k_initial : list (nfid * data);
-  k_steps : list (op * res unit * list (nfid * option entry)) }.
+  k_steps : list (list op * res unit * list (nfid * option entry)) }.
 
-Fixpoint replay (m : rm) (l : list (op * res unit * list (nfid * option entry))) : bool :=
+Fixpoint replay (m : rm) (l : list (list op * res unit * list (nfid * option entry))) : bool :=
   match l with
   | [] => true
   | (o, out, obs) :: l' =>
-      let r := step m o in
+      let r := tx_step m o in
       res_eqb (snd r) out
       && forallb (fun x => oentry_eqb (find (fst x) (r_store (fst r))) (snd x)) obs
       && replay (fst r) l'
